@@ -1,6 +1,9 @@
 package sim
 
-import "time"
+import (
+	"fmt"
+	"time"
+)
 
 // C15 — state check and restore tell the truth about everything the mint ever did.
 
@@ -23,6 +26,10 @@ func coreC15(tier string) []RunSpec {
 	}
 	for k := 0; k < 12; k++ {
 		out = append(out, RunSpec{Profile: "core:melt-poll-race", Params: map[string]int{"conc": 0, "mpr": 1, "k": k}})
+	}
+	// pay calls that end in an error or a timeout while the payment is in flight, then a state check
+	for k := 0; k < 4; k++ {
+		out = append(out, RunSpec{Profile: "core:state-check-while-payment-in-flight", Params: map[string]int{"conc": 0, "infl": 1, "k": k}})
 	}
 	// one request with very many outputs, everything restored afterwards (before / after a restart)
 	for k := 0; k < 4; k++ {
@@ -66,6 +73,28 @@ func runC15(rc *RunCtx) {
 			m.StepCheckstate()
 		}
 		rc.S.Probe("c15_late_resolution")
+	}
+	if rc.P("infl", 0) == 1 {
+		// melts whose pay call ends in an error or a timeout while the payment is really in flight: a
+		// state check of their inputs says PENDING (the Book judges it at the response)
+		for i := 0; i < 3; i++ {
+			m.step = -60 + i
+			rc.W.LN.ForceNextPay = []string{"error-inflight", "timeout", "error-inflight", "pending"}[(i+rc.P("k", 0))%4]
+			m.StepMelt()
+			rc.W.LN.ForceNextPay = ""
+			mb := rc.W.Book.Mint("A")
+			if n := len(mb.LQOrder); n > 0 {
+				if q := mb.LQ[mb.LQOrder[n-1]]; len(q.Attempts) > 0 {
+					var Ys []string
+					for _, pr := range q.Attempts[len(q.Attempts)-1].Inputs {
+						Ys = append(Ys, hY(pr.Secret))
+					}
+					rc.S.BeginEpisode()
+					rc.S.Run1(fmt.Sprintf("infl.cs%d", i), rc.W.Ext, func() { m.User.CheckState("A", Ys) })
+					rc.S.Probe("c15_checkstate_after_erroring_pay_call")
+				}
+			}
+		}
 	}
 	if rc.P("large", 0) == 1 {
 		m.step = -40
